@@ -354,12 +354,12 @@ fn xml_bomb(r: &mut Rng) -> (Vec<u8>, &'static str) {
 
 // ---------------------------------------------------------------- worker process
 
-struct SlowReader<'a> {
-    data: &'a [u8],
-    pos: usize,
-    mode: u8,
-    rng: Rng,
-    calls: u64,
+pub struct SlowReader<'a> {
+    pub data: &'a [u8],
+    pub pos: usize,
+    pub mode: u8,
+    pub rng: Rng,
+    pub calls: u64,
 }
 impl<'a> Read for SlowReader<'a> {
     fn read(&mut self, buf: &mut [u8]) -> std::io::Result<usize> {
